@@ -206,10 +206,14 @@ class GrandCanonical(
 
     def save_state(self) -> None:
         """Save the current state of the context and update move labels."""
+        notified = set()
+
         for move_storage in self.moves.values():
-            move_storage.move.on_atoms_changed(
-                self.context._added_indices, self.context._deleted_indices
-            )
+            if id(move_storage.move) not in notified:
+                notified.add(id(move_storage.move))
+                move_storage.move.on_atoms_changed(
+                    self.context._added_indices, self.context._deleted_indices
+                )
 
         super().save_state()
 
